@@ -33,8 +33,8 @@ func (r *vdC06Rep) note(name string, tags map[string]string) {
 	}
 	r.mu.Unlock()
 }
-func (r *vdC06Rep) Capabilities() Capabilities { return capabilitiesReportingTagging }
-func (r *vdC06Rep) Flush()                     {}
+func (r *vdC06Rep) Capabilities() Capabilities                                 { return capabilitiesReportingTagging }
+func (r *vdC06Rep) Flush()                                                     {}
 func (r *vdC06Rep) ReportCounter(n string, t map[string]string, v int64)       { r.note(n, t) }
 func (r *vdC06Rep) ReportGauge(n string, t map[string]string, v float64)       { r.note(n, t) }
 func (r *vdC06Rep) ReportTimer(n string, t map[string]string, d time.Duration) { r.note(n, t) }
@@ -57,9 +57,18 @@ func (vdC06Nop) ValueBucket(float64, float64) CachedHistogramBucket {
 func (vdC06Nop) DurationBucket(time.Duration, time.Duration) CachedHistogramBucket {
 	return vdC06Nop{}
 }
-func (r *vdC06Rep) AllocateCounter(n string, t map[string]string) CachedCount { r.note(n, t); return vdC06Nop{} }
-func (r *vdC06Rep) AllocateGauge(n string, t map[string]string) CachedGauge   { r.note(n, t); return vdC06Nop{} }
-func (r *vdC06Rep) AllocateTimer(n string, t map[string]string) CachedTimer   { r.note(n, t); return vdC06Nop{} }
+func (r *vdC06Rep) AllocateCounter(n string, t map[string]string) CachedCount {
+	r.note(n, t)
+	return vdC06Nop{}
+}
+func (r *vdC06Rep) AllocateGauge(n string, t map[string]string) CachedGauge {
+	r.note(n, t)
+	return vdC06Nop{}
+}
+func (r *vdC06Rep) AllocateTimer(n string, t map[string]string) CachedTimer {
+	r.note(n, t)
+	return vdC06Nop{}
+}
 func (r *vdC06Rep) AllocateHistogram(n string, t map[string]string, b Buckets) CachedHistogram {
 	r.note(n, t)
 	return vdC06Nop{}
